@@ -5,7 +5,7 @@ Applied to types that are "used as connections", e.g. Signal.
 """
 
 # Std-Lib Imports
-from typing import Any, Union, TypeVar, Type
+from typing import Any, List, Union, TypeVar, Type
 
 T = TypeVar("T")
 
@@ -19,6 +19,13 @@ def connectable(cls: Type[T]) -> Type[T]:
 def is_connectable(obj: Any) -> bool:
     """Boolean indication of connect-ability"""
     return getattr(obj, "__connectable__", False)
+
+
+def connected_ports(conn: "Connectable") -> List["PortRef"]:
+    """The port references connected to `conn`, in a reproducible order.
+    The `_connected_ports` of each connectable are a set of objects hashed by memory address,
+    whose iteration order varies from process to process."""
+    return sorted(conn._connected_ports, key=lambda p: (p.inst.name or "", p.portname))
 
 
 # Union of types using `connectable`
